@@ -18,7 +18,9 @@ import time
 ID, X = sys.argv[1], sys.argv[2]
 NOSUITE = "--no-suite" in sys.argv
 # extra `go test` flags some demonstrations need
-DEMO_FLAGS = {"C05-B": "-race", "C05-D": "-race", "C14-A": "-tags gc_opt", "C14-B": "-tags gc_opt", "C14-C": "-tags gc_opt"}.get("%s-%s" % (ID, X), "")
+DEMO_FLAGS = {"C05-B": "-race", "C05-D": "-race", "C14-A": "-tags gc_opt", "C14-B": "-tags gc_opt", "C14-C": "-tags gc_opt", "C14-E": "-tags gc_opt"}.get("%s-%s" % (ID, X), "")
+# environment some demonstrations need (a 32-bit build)
+DEMO_ENV = {"C15-F": "GOARCH=386 "}.get("%s-%s" % (ID, X), "")
 OUT = "/tmp/wt/out/%s" % ID
 PATCH = "%s/%s.patch.diff" % (OUT, X)
 DEMO = "%s/%s.demo" % (OUT, X)
@@ -113,7 +115,7 @@ def main():
             allpass = True
             for d, dst, names in placed:
                 rx = "^(%s)$" % "|".join(names) if names else "."
-                rc, out = netns("go test %s -vet=off -count=1 -timeout 600s -run '%s' ./%s" % (DEMO_FLAGS, rx, d), wt, timeout=900)
+                rc, out = netns("%sgo test %s -vet=off -count=1 -timeout 600s -run '%s' ./%s" % (DEMO_ENV, DEMO_FLAGS, rx, d), wt, timeout=900)
                 outs.append((d, rc, out[-1500:]))
                 if rc != 0:
                     allpass = False
